@@ -234,8 +234,27 @@ def build_cases(tier: str):
                 nargs += 1
                 cases.append(Case(pid, backend, text, argscope.extra_metadata(text) + md, {"k": "argscope:" + ctx, "ndev": 0}))
                 pid += 1
+        # explicit Aggregate(init, lambda acc, v: ...) with computed initial values and closures over enclosing loops
+        from mc.lang import aggfam
+        naggs = 0
+        for ctx, text in aggfam.queries(backend):
+            if text not in seen and (tier != "quick" or backend == "atlas" or ctx.split(":")[0] in ("ev-tuple", "obj-stream", "obj-sum")):
+                seen.add(text)
+                naggs += 1
+                cases.append(Case(pid, backend, text, md, {"k": "aggregate:" + ctx, "ndev": 0}))
+                pid += 1
+        # intermediate tuples / lists / dictionaries carried from one Select to the next and read back by index, key, attribute
+        from mc.lang import structfam
+        nstruct = 0
+        for ctx, text in structfam.queries(backend):
+            sk, mk = ctx.split(":")
+            if text not in seen and (tier != "quick" or (backend == "atlas" and sk in ("tuple", "dict-attr") and mk in ("none", "where-repack"))):
+                seen.add(text)
+                nstruct += 1
+                cases.append(Case(pid, backend, text, md, {"k": "struct:" + ctx, "ndev": 0}))
+                pid += 1
         derived = sum(len(v) for v in g._memo.values())
-        gen_stats[backend] = {"skeletons": nsk, "programs": len(seen), "derived_subterms": derived, "argument_scope_programs": nargs,
+        gen_stats[backend] = {"skeletons": nsk, "programs": len(seen), "derived_subterms": derived, "argument_scope_programs": nargs, "explicit_aggregate_programs": naggs, "intermediate_structure_programs": nstruct,
                               "bounds": {"k_d0": k0, "k_d1": k1, "k_d2": k2}}
     return cases, gen_stats
 
